@@ -125,6 +125,15 @@ def run(tier):
                             bad(route, fld + "-" + ("panic" if "panic" in y else "error"), json.dumps(y)[:300])
                         elif y != v:
                             bad(route, fld + "-differs", "came back as %s" % json.dumps(y, ensure_ascii=False)[:300])
+    # Gluon code reads the fields of derived records / struct-like variants by name
+    fr = vlib.run_pool(["marshal"], [{"id": 0, "op": "fields"}], workers=1, job_timeout=120)[0]
+    if fr.get("status") != "ok":
+        raise vlib.ToolError("the field probe did not run: %s" % json.dumps(fr)[:400])
+    for name, want in fr["expected"].items():
+        evaluations += 1
+        if fr[name] != want:
+            V.violation("fields:%s" % name, "Gluon code reading field `%s` of a value pushed by the derived Pushable observes %s, the Rust value has %s" % (name, json.dumps(fr[name])[:300], json.dumps(want)),
+                        {"op": "fields", "field": name, "observed": fr[name], "expected": want})
     # signatures
     src, names, gvals = globals_module(sig_rows, by_type)
     reqs = [{"rust": M.tname(s["rust"]), "global": "mglob." + names[json.dumps(s["global"])]} for s in sig_rows]
@@ -181,6 +190,12 @@ def replay(path):
     if "job" in d:
         print(json.dumps(vlib.run_pool(["marshal"], [d["job"]], workers=1, job_timeout=120)[0])[:3000])
         print("VIOLATION property=%s replay=%s" % (PID, path)); return 1
+    if d.get("op") == "fields":
+        fr = vlib.run_pool(["marshal"], [{"id": 0, "op": "fields"}], workers=1, job_timeout=120)[0]
+        print(json.dumps(fr)[:1500])
+        if fr.get(d["field"]) != d["expected"]:
+            print("VIOLATION property=%s replay=%s" % (PID, path)); return 1
+        return 0
     if "request" in d:
         r = vlib.run_pool(["marshal"], [{"id": 0, "op": "sig", "source": d["source"], "requests": [d["request"]]}], workers=1, job_timeout=120)[0]
         print(json.dumps(r)[:2000])
